@@ -64,7 +64,7 @@ def record(kind, prm, ws, xs, vs, cuts, twice, seed):
     obj = StreamDensityBasedAL(dist_func=_dist_first, window_size=ws, budget_manager=bc.make(kind, prm, seed),
                                random_state=seed + 1)
     clf = _stub()
-    P = {k: prm[k] for k in ("kind", "W", "B", "S", "Theta0", "K", "WTol", "Allow", "Stale")}
+    P = {k: prm[k] for k in ("kind", "W", "B", "S", "Theta0", "K", "WTol", "Allow", "Stale", "Sharp")}
     events = []
     for cx, cv in zip(bc.chunks_of(xs, cuts), bc.chunks_of(vs, cuts)):
         cand = np.array([[float(x), float(v)] for x, v in zip(cx, cv)])
@@ -164,7 +164,7 @@ def record_cognitive(kind, prm, cws, thr, xs, vs, cuts, twice, seed):
                                      cognition_window_size=cws, budget_manager=bc.make(kind, prm, seed),
                                      random_state=seed + 1)
     clf = _stub_max()
-    P = {k: prm[k] for k in ("kind", "W", "B", "S", "Theta0", "K", "WTol", "Allow", "Stale")}
+    P = {k: prm[k] for k in ("kind", "W", "B", "S", "Theta0", "K", "WTol", "Allow", "Stale", "Sharp")}
     events = []
     for cx, cv in zip(bc.chunks_of(xs, cuts), bc.chunks_of(vs, cuts)):
         cand = np.array([[float(x), float(v)] for x, v in zip(cx, cv)])
